@@ -14,8 +14,9 @@ Decided statically (each rule is the code shape of one race the property names):
  R7 wiring: who calls modify / recv / merge_channel.
 Not decided: liveness ("a requested refresh is eventually answered"), end-to-end freshness of published state.
 """
+from ..inline import inline_view
 from ..mir import AnchorLost
-from ..util import df_of, enum_variant_of_operand, operand_path, path_last, one_call, yields, switch_on, switch_edges, in_set, fn_short
+from ..util import bool_edges, uses_of_local, guard_across_yield, df_of, enum_variant_of_operand, operand_path, path_last, one_call, yields, switch_on, switch_edges, in_set, fn_short
 
 MOD = "scylla::cluster::metadata::merge_channel::"
 
@@ -84,8 +85,7 @@ def r1_r4(ctx, facts):
     if len(sws) != 1:
         raise AnchorLost("no unique switch on the sender_dropped load")
     edges, other = switch_edges(b, sws[0])
-    true_tg = other if 0 in edges else edges.get(1)
-    false_tg = edges.get(0)
+    true_tg, false_tg = bool_edges(b, sws[0])
     reach_true = b.reachable_from(true_tg, removed_nodes=[notified.bb])
     retake = [t for t in takes if t.bb in reach_true and b.dominates(sws[0], t.bb)]
     ok = False
@@ -108,8 +108,17 @@ def r1_r4(ctx, facts):
     r1.instance("await-target-is-notified", _derives_from(b, df, poll, notified), "the awaited future must be this iteration's notified()", poll.span)
     # R4
     ysb = set(ys)
+    def returned_directly(l, depth=0):
+        """local l is the return place, or is only ever moved (through temporaries) into it"""
+        if l == 0:
+            return True
+        us = uses_of_local(b, l)
+        if depth > 4 or len(us) != 1 or us[0][1][0] != "stmt":
+            return False
+        st = us[0][1][1]
+        return st[2][0] == "use" and not st[1][1] and returned_directly(st[1][0], depth + 1)
     for i, t in enumerate(takes):
-        if t.dest[0] == 0 and not t.dest[1]:
+        if not t.dest[1] and returned_directly(t.dest[0]):
             reach = b.reachable_after(t.bb)
             r4.instance("take#%d-returned-directly" % i, not (reach & ysb), "take() assigned to the return place must not be followed by an await", t.span)
             continue
@@ -281,8 +290,8 @@ def r6(ctx, facts):
                 elif st[0] == "A" and st[2][0] == "agg" and st[2][1][0] == "adt" and st[2][1][1] == MOD + "Shared":
                     pass
     rb = facts.one(r"merge_channel::Receiver::<T>::recv::\{closure#0\}$")
-    guards = [l for l in range(len(rb.locals)) if "MutexGuard" in rb.local_ty(l)]
-    r.instance("no-guard-in-recv-coroutine", not guards, "no MutexGuard local may exist in the recv coroutine (a guard must never be held across an await)", rb.span)
+    held = guard_across_yield(rb)
+    r.instance("no-guard-in-recv-coroutine", not held, "a MutexGuard of the slot may be live at an await of the recv coroutine: %s" % [(rb.local_name(l) or "_%d" % l, y) for l, _, y in held][:3], rb.span)
 
 
 def r7(ctx, facts):
@@ -353,7 +362,7 @@ def r8(ctx, facts):
 
 
 def check(ctx):
-    facts = ctx.facts("default")
+    facts = inline_view(ctx.facts("default"))
     for fn in (r1_r4, r2, r3, r5, r6, r7, r8):
         try:
             fn(ctx, facts)
